@@ -326,13 +326,19 @@ def run(tier, seed, replay=None):
         "replies the scripted peer sent (success status, current = min(1.1, max) or an accepted SetProtocolVersion)",
     ]
     vlib.proof_part(res, PID)
-    exe, err = cc.build(PID)
-    if err:
-        res.violation("build", err, dict(kind="build"), False)
+    rc, olog = vlib.build_oracle("client")
+    ok, blog, exe = vlib.build_harness("llrp", PID, ["client_script_test.go", "c08_test.go"])
+    if rc != 0 or not ok:
+        res.violation("build", "oracle or harness does not build: %s %s" % (olog[-800:], blog[-1500:]), dict(kind="build"), False)
         return res.finish()
     thorough = tier == "thorough"
     if replay:
         rp = json.load(open(replay))
+        if rp.get("kind") == "timed":
+            o = run_timed(exe, [rp["request"]])[0]
+            for sig, text in judge_timed(rp["request"], o):
+                res.violation(sig, text, dict(kind="timed", request=rp["request"], observed=o))
+            return res.finish()
         if "script" not in rp:
             print("replay file has no script (kind=%s): nothing to re-run" % rp.get("kind"))
             return res.finish()
@@ -422,7 +428,24 @@ def run(tier, seed, replay=None):
         if hostile_seen:
             res.notes.append("decoder defects reached through checkInitialMessage (reported under C11/C10, not C08): %s" % hostile_seen)
 
+    # timed scenarios: client WithTimeout, reader never answers a negotiation message (with / without keep-alives)
+    timed = gen_timed(thorough) if not replay else []
+    tobs = run_timed(exe, timed)
+    for rq, o in zip(timed, tobs):
+        evals += 1
+        dist["timed"] = dist.get("timed", 0) + 1
+        nontriv.add(("timed", rq["id"]))
+        for sig, text in judge_timed(rq, o):
+            if sig in reported:
+                continue
+            reported.add(sig)
+            res.violation(sig, text + " [timed scenario %s]" % rq["id"], dict(kind="timed", request=rq, observed=o,
+                          theorem="C08_early_requests_held_back / C08_gate_opens_after_setup / C08_setup_failure_fails_callers"))
+    if timed and len(samples) < 6:
+        samples.append(dict(timed=timed[0], observed=tobs[0]))
+
     res.coverage.update(
+        timed_scenarios=len(timed),
         evaluations=evals, distinct_nontrivial=len(nontriv),
         rule="a case is one script run on the real Client (and, unless several callers are released at once, on the model); distinct by "
              "(reference class of the first message, client version, family, #callers, #steps, script shape); every case is non-trivial: "
@@ -454,3 +477,85 @@ def run_isolated(exe, scripts):
             return None
     with concurrent.futures.ThreadPoolExecutor(len(scripts)) as ex:
         return list(ex.map(one, range(len(scripts)))), []
+
+
+# ------------------------------------------------------------------ timed scenarios (harness/llrp/c08_test.go)
+def gen_timed(thorough):
+    out = []
+    T = 120
+    earlies = [["pre", "gate", "neg"], ["pre"], ["gate"], ["neg"]] + ([["pre", "neg"], ["gate", "neg"], []] if thorough else [])
+    for silent in ("gsv", "spv"):
+        for ka in (True, False):
+            for early in earlies:
+                for t in ((T,) if not thorough else (T, 60, 250)):
+                    out.append(dict(id="%s-unanswered-%s-%s-T%d" % (silent, "keepalives" if ka else "silence", "+".join(early) or "nocallers", t),
+                                    timeout_ms=t, silent_on=silent, keepalive=ka, early=early, budget_ms=max(1500, 10 * t)))
+    for ka in (True, False):      # control: everything answered (judged only for the order of frames)
+        out.append(dict(id="answered-%s" % ("keepalives" if ka else "silence"), timeout_ms=250, silent_on="none", keepalive=ka,
+                        early=["pre", "gate", "neg"], budget_ms=400))
+    return out
+
+
+def run_timed(exe, reqs, shards=6):
+    import concurrent.futures
+    if not reqs:
+        return []
+    shards = max(1, min(shards, len(reqs)))
+    parts = [reqs[i::shards] for i in range(shards)]
+
+    def one(k):
+        rc, lines, log = vlib.run_harness(exe, "TestVerifC08Timed", "".join(json.dumps(r) + "\n" for r in parts[k]), timeout=300, tag="_t%d" % k)
+        outs = []
+        for ln in lines:
+            try:
+                outs.append(json.loads(ln))
+            except ValueError:
+                outs.append(None)
+        return outs + [None] * (len(parts[k]) - len(outs))
+    res = [None] * len(reqs)
+    with concurrent.futures.ThreadPoolExecutor(shards) as ex:
+        for k, outs in enumerate(ex.map(one, range(shards))):
+            for j, o in enumerate(outs[:len(parts[k])]):
+                res[k + j * shards] = o
+    return res
+
+
+NEG_TYPES = (cc.T_GSV, cc.T_SPV, cc.T_ACK)
+
+
+def judge_timed(rq, o):
+    """C08 on a timed run: the reader never answered <silent_on>, so setup must fail, early callers must fail, and the peer
+    must have seen nothing but negotiation frames and KeepAliveAcks"""
+    if o is None or o.get("error"):
+        return [("harness-run", "no usable observation for timed scenario %s: %s" % (rq["id"], o))]
+    bad = []
+    frames = o.get("frames") or []
+    if o.get("panics"):
+        bad.append(("panic", "panic: %s" % o["panics"][:2]))
+    if rq["silent_on"] == "none":
+        # control: if setup succeeded, the callers' frames come after the negotiation frames
+        seen_caller = False
+        for f in frames:
+            if f["typ"] not in NEG_TYPES:
+                seen_caller = True
+            elif seen_caller and f["typ"] in (cc.T_GSV, cc.T_SPV):
+                bad.append(("negotiation-frame-after-request", "negotiation frame typ %d follows a caller's request" % f["typ"]))
+        return bad
+    msg = {"gsv": "GetSupportedVersion", "spv": "SetProtocolVersion"}[rq["silent_on"]]
+    how = "with keep-alives keeping the read deadline alive" if rq["keepalive"] else "reader silent"
+    if o.get("connect") in ("blocked", "nil") or (o.get("ready") and not o.get("closed")):
+        bad.append(("setup-succeeds-though-%s-unanswered" % rq["silent_on"],
+                    "the reader never answered %s (client timeout %d ms, %s) but setup did not fail: Connect %s after %s ms, ready=%s closed=%s" % (
+                        msg, rq["timeout_ms"], how, o.get("connect"), o.get("connect_ms"), o.get("ready"), o.get("closed"))))
+    foreign = [f for f in frames if f["typ"] not in NEG_TYPES]
+    if foreign:
+        bad.append(("early-request-sent-though-%s-unanswered" % rq["silent_on"],
+                    "the reader never answered %s (%s) yet the peer received %d request frame(s) of early callers (types %s); frames seen: %s" % (
+                        msg, how, len(foreign), sorted({f["typ"] for f in foreign}), [f["typ"] for f in frames][:12])))
+    for name, r in sorted((o.get("callers") or {}).items()):
+        if r in ("ok", "sent"):
+            bad.append(("early-caller-succeeds-though-%s-unanswered" % rq["silent_on"],
+                        "caller '%s' returned %s though the reader never answered %s (%s)" % (name, r, msg, how)))
+        elif r == "blocked":
+            bad.append(("caller-blocked-after-failed-setup", "caller '%s' is still blocked after setup timed out on %s" % (name, msg)))
+    return bad
